@@ -110,6 +110,8 @@ def user_sequence(k):
 
 def make_idgen(xtuml, kind, seed):
     '''Returns (real generator object, reference generator).'''
+    ent = seams.install_entropy()
+    ent.reset(seed)
     if kind == 'integer':
         return xtuml.IntegerGenerator(), refstore.RefIntegerGen()
     if kind == 'user':
@@ -125,8 +127,6 @@ def make_idgen(xtuml, kind, seed):
         return UserGen(), refstore.RefSequenceGen(user_sequence)
     if kind == 'iter':
         return itertools.count(500, 3), refstore.RefSequenceGen(lambda k: 500 + 3 * k)
-    ent = seams.install_entropy()
-    ent.reset(seed)
     if kind == 'uuid_default':
         return None, refstore.RefSequenceGen(lambda k: seams.entropy_value(seed, k))
     return xtuml.UUIDGenerator(), refstore.RefSequenceGen(lambda k: seams.entropy_value(seed, k))
@@ -180,7 +180,7 @@ class Gen(object):
         self.st = Streams(seed)
         sw = self.st['swarm']
         self.rng = self.st['ops']
-        want = {'C16': ['reflexive'], 'C10': [], 'C02': [], 'C09': [], 'C11': [], 'C19': []}[prop]
+        want = {'C16': ['reflexive']}.get(prop, [])
         profile = {}
         if prop == 'C19':
             profile = {'bad_type': 0.5, 'max_plain': 5, 'max_shapes': 2}
@@ -207,7 +207,7 @@ class Gen(object):
         # swarm: knock out a random subset of op families (never the ones the property is about)
         keep = {'C02': ('relate', 'new'), 'C09': ('select', 'nav', 'new', 'relate'), 'C10': ('setattr', 'getattr', 'new'),
                 'C11': ('check', 'new', 'relate'), 'C16': ('sort', 'new_n', 'relate_n'),
-                'C19': ('new_args', 'new', 'idgen')}[prop]
+                'C19': ('new_args', 'new', 'idgen'), 'C01': ('new', 'relate', 'setattr', 'checkpoint')}[prop]
         for k in list(w):
             if k not in keep and sw.random() < 0.2:
                 del w[k]
@@ -818,6 +818,8 @@ class Gen(object):
                 op = self.op_recheck()
             elif k == 'find_class':
                 op = self.op_find_class()
+            elif k in getattr(self, '_extra', {}):
+                op = self._extra[k]()
             if op is None:
                 steps -= 0.2        # do not spin forever on an unproductive table
                 continue
@@ -1050,6 +1052,8 @@ def apply_ref(ref, op, gen_time=False, world=None):
             return ('ret', sch.cls(op['kind'])['kind'])
         except KeyError:
             raise Skip('unknown class')
+    if k in ('checkpoint', 'restart'):
+        return ('disk', None)
     raise ValueError('unknown op %r' % k)
 
 
@@ -1790,6 +1794,11 @@ class Exec(object):
                         cands = ref.ref_candidates(h, name)
                         v = getattr(inst, name)
                         if self.cv(v) not in [self.cv(cnd) for cnd in cands]:
+                            if isinstance(v, str) and any(isinstance(c_, str) and '\r' in c_ and
+                                                          v == c_.replace('\r\n', '\n').replace('\r', '\n') for c_ in cands):
+                                raise Violation('value', 'after %s: %s.%s reads %r, the identifying value written was one of '
+                                                '%r: carriage returns were translated to line feeds' % (where, h, name, v, cands),
+                                                'value:cr-translated')
                             raise Violation('referential', 'after %s: %s.%s reads %r, identifying values of the linked '
                                             'instances: %r' % (where, h, name, v, cands), 'referential')
                     elif name in row.unset:
@@ -1810,6 +1819,11 @@ class Exec(object):
                                 raise Violation('value', 'after %s: %s.%s (spelling %s) has lost its value %r'
                                                 % (where, h, name, sp, want_v), 'value:lost')
                             if not self.same(v, want_v):
+                                if isinstance(want_v, str) and isinstance(v, str) and '\r' in want_v and \
+                                        v == want_v.replace('\r\n', '\n').replace('\r', '\n'):
+                                    raise Violation('value', 'after %s: %s.%s reads %r, the value written was %r: carriage '
+                                                    'returns were translated to line feeds' % (where, h, name, v, want_v),
+                                                    'value:cr-translated')
                                 raise Violation('alias' if sp != name else 'value',
                                                 'after %s: %s.%s reads %r under the spelling %s, the value written last is %r'
                                                 % (where, h, name, v, sp, want_v),
